@@ -25,7 +25,13 @@ class C09(Prop):
     id = "C09"
     lean_modules = ["PkgProofs.Props.C09"]
     generated = ["MarkerTok"]
-    theorems = []
+    theorems = ["C09.str_is_spelled_tokens", "C09.format_parses_back", "C09.format_preserves_grouping",
+                "C09.literal_preserved", "C09.outer_parentheses_dropped", "C09.literal_quote_safe",
+                "C09.literal_eval_roundtrip", "C09.extra_normalised_everywhere", "C09.extra_spelling_normalised",
+                "C09.normalize_idem", "C09.eq_iff_same_str", "C09.eq_equivalence", "C09.hash_agrees",
+                "C09.same_tokens_same_eval", "C09.one_spelling_per_variable",
+                "C09.Old.old_format_loses_grouping", "C09.Old.old_quote_truncates", "C09.Old.old_extra_not_normalised",
+                "MkParse.parse_print", "MkFmt.fmtToksL_true", "MkFmt.fOfL_nfTop", "MkFmt.nfTop_idem"]
     rule = ("C07 formulas with literals over the full PEP 508 string alphabet (both quote characters, '#', ';', brackets), "
             "extra comparisons in every position and on either side, redundant parentheses to depth 4 (incl. doubled "
             "parentheses around compound operands), two independent spellings per formula (white space, quotes, outer "
